@@ -398,6 +398,22 @@ func (ctx *actorContext) refreshIdleDeadline(reset bool) {
 	}
 }
 
+// receive hands the current message to the actor. The handlers of an actor that is restarting or terminating run as part of
+// that lifecycle step (OnRestarting, OnTerminate, OnTerminated, the termination notices of its children): a panic in one
+// of them cannot be supervised any more — ReportAbnormal ignores actors that are not alive — and used to abort the step
+// half-way, leaving the actor restarting or terminating for ever (its parent, its watchers and Shutdown waited in vain).
+// Such a panic is logged and the step goes on.
+func (ctx *actorContext) receive() {
+	if ctx.status.Load() != actorStatusAlive {
+		defer func() {
+			if reason := recover(); reason != nil {
+				ctx.system.Logger().Error("ActorSystem", log.String("event", "lifecycle handler panicked"), log.String("actor", ctx.ref.GetLogicalAddress()), log.Any("reason", reason))
+			}
+		}()
+	}
+	ctx.actor.OnReceive(ctx)
+}
+
 func (ctx *actorContext) processMessage(sender, receiver ActorRef, message Message, system bool) {
 	ctx.refreshIdleDeadline(true)
 	defer ctx.refreshIdleDeadline(false)
@@ -412,13 +428,13 @@ func (ctx *actorContext) processMessage(sender, receiver ActorRef, message Messa
 				ctx.Terminate(ctx.ref, false)
 				return
 			}
-			ctx.actor.OnReceive(ctx)
+			ctx.receive()
 		case *messages.AbyssMessageEvent:
 			ctx.onAbyssMessageEvent(m)
 		case onLocalFunc:
 			m(ctx)
 		default:
-			ctx.actor.OnReceive(ctx)
+			ctx.receive()
 		}
 
 		switch message.(type) {
